@@ -119,6 +119,30 @@ def inverse_pairs(ctx, rule='C19-R2'):
                           instance=f'{name}: same step mask on both sides')
 
 
+def continuity_offset_guard(ctx, rule='C19-R5'):
+    """The continuity correction of step scaling is dropped (set to 0) only when there is no step at all."""
+    fx = effects(ctx)
+    p = ctx.project
+    q = f'{MOD}.step_scale'
+    f = p.func(q, rule)
+    de, ue = _exprs(fx, q, rule)
+    steps = ('p', 'steps')
+    n = ('call', ('g', 'builtins.len'), (steps,), ())
+    none_forms = {('cmp', 'eq', C(0), n), ('cmp', 'le', n, C(0)), ('cmp', 'lt', n, C(1)), T.mk_not(steps),
+                  T.mk_not(('cmp', 'lt', C(0), n))}
+    found = 0
+    for e in (de, ue):
+        for ph in [x for x in T.walk(e.value) if tag(x) == 'phi' and any(v == C(0) for _, v in x[1])]:
+            found += 1
+            zero_guards = [g for g, v in ph[1] if v == C(0)]
+            ok = all(g in none_forms for g in zero_guards)
+            ctx.check(ok, rule, q, e.node, e.loc(),
+                      f'the continuity offset is dropped under {T.show(zero_guards[0], maxlen=80)}: with one step edge '
+                      'the second segment then restarts at 0 - a jump and an order reversal at the edge',
+                      instance='step_scale: continuity offset omitted only when there are no steps')
+    ctx.floor(rule, 'continuity-offset selections in step_scale', found, 2)
+
+
 def minrange(ctx, rule='C19-R4'):
     fx = effects(ctx)
     p = ctx.project
